@@ -135,3 +135,141 @@ func (l *lastInput) Set(b []byte) {
 	l.f.Truncate(0)
 	l.f.WriteAt(b, 0)
 }
+
+// runRestartable is runBatches for code under test that may legitimately end the
+// process (flag.ExitOnError): the child records the index of the case it is about
+// to run; when it dies the parent inspects stderr (a Go panic or fatal error is a
+// violation, a plain exit is not) and restarts the child after that case.
+// f must generate its cases deterministically from (seed, batch) and skip those < start.
+func runRestartable(c *ctx, part string, n int, par int, timeout time.Duration,
+	f func(c *ctx, batch, start int, progress func(i int, input string))) {
+	if c.Batch >= 0 {
+		start, _ := strconv.Atoi(os.Getenv("VH_START"))
+		pf, _ := os.OpenFile(filepath.Join(c.Dir, fmt.Sprintf("progress.%d", c.Batch)), os.O_CREATE|os.O_WRONLY|os.O_TRUNC, 0o644)
+		out := os.Getenv("VH_OUT")
+		n := 0
+		f(c, c.Batch, start, func(i int, input string) {
+			if pf != nil {
+				b := []byte(fmt.Sprintf("%d\n%s", i, input))
+				pf.Truncate(0)
+				pf.WriteAt(b, 0)
+			}
+			if n++; n%20 == 0 && out != "" {
+				c.R.WriteSnapshot(out)
+			}
+		})
+		return
+	}
+	if par <= 0 {
+		par = runtime.GOMAXPROCS(0)
+	}
+	sem := make(chan struct{}, par)
+	var wg sync.WaitGroup
+	var mu sync.Mutex
+	for b := 0; b < n; b++ {
+		wg.Add(1)
+		sem <- struct{}{}
+		go func(b int) {
+			defer wg.Done()
+			defer func() { <-sem }()
+			start := 0
+			for attempt := 0; attempt < 5000; attempt++ {
+				out := filepath.Join(c.Dir, fmt.Sprintf("rbatch%d.%d.json", b, attempt))
+				errf := filepath.Join(c.Dir, fmt.Sprintf("rbatch%d.stderr", b))
+				ef, _ := os.Create(errf)
+				cmd := exec.Command(os.Args[0], part, "-batch", strconv.Itoa(b), "-seed", strconv.FormatInt(c.Seed, 10),
+					"-tier", c.Tier, "-out", out, "-dir", c.Dir, "-scale", fmt.Sprint(c.Scale))
+				cmd.Stdout, cmd.Stderr = ef, ef
+				cmd.Env = append(os.Environ(), "GOMAXPROCS=2", "VH_START="+strconv.Itoa(start), "VH_OUT="+out, "VH_COMPLETE="+out+".done")
+				done := make(chan error, 1)
+				cmd.Start()
+				go func() { done <- cmd.Wait() }()
+				var err error
+				select {
+				case err = <-done:
+				case <-time.After(timeout):
+					cmd.Process.Kill()
+					err = <-done
+					mu.Lock()
+					c.R.Inconcl("batch %d: watchdog fired", b)
+					mu.Unlock()
+					ef.Close()
+					return
+				}
+				ef.Close()
+				child, lerr := rep.Load(out)
+				mu.Lock()
+				if lerr == nil {
+					c.R.Merge(child)
+				}
+				_, complete := os.Stat(out + ".done")
+				if complete == nil {
+					c.R.Count("batches", 1)
+					mu.Unlock()
+					return
+				}
+				// the child ended early: which case was it running?
+				prog := tailFile(filepath.Join(c.Dir, fmt.Sprintf("progress.%d", b)), 1<<20)
+				idx, input := -1, ""
+				if i := indexByte(prog, '\n'); i > 0 {
+					idx, _ = strconv.Atoi(prog[:i])
+					input = prog[i+1:]
+				}
+				tail := tailFile(errf, 4000)
+				c.R.Count("child_exits", 1)
+				if containsStr(tail, "panic:") || containsStr(tail, "fatal error:") || containsStr(tail, "goroutine ") {
+					c.R.Violate(part+":process-panic:"+crashClass(tail)+":"+panicLine(tail), fmt.Sprintf("case %d of batch %d ended the process with a Go panic (%v):\n%s", idx, b, err, tail), map[string]any{"Input": input, "Batch": b, "Index": idx})
+				} else {
+					c.R.Count("plain_process_exits", 1)
+				}
+				mu.Unlock()
+				if idx < start {
+					mu.Lock()
+					c.R.Inconcl("batch %d: child died before making progress (start %d): %s", b, start, tail)
+					mu.Unlock()
+					return
+				}
+				start = idx + 1
+			}
+		}(b)
+	}
+	wg.Wait()
+}
+
+func indexByte(s string, b byte) int {
+	for i := 0; i < len(s); i++ {
+		if s[i] == b {
+			return i
+		}
+	}
+	return -1
+}
+
+// panicLine extracts the 'panic: ...' line (without addresses) for a stable signature.
+func panicLine(stderr string) string {
+	i := 0
+	for {
+		j := indexFrom(stderr, "panic: ", i)
+		if j < 0 {
+			return ""
+		}
+		e := j
+		for e < len(stderr) && stderr[e] != '\n' {
+			e++
+		}
+		l := stderr[j+7 : e]
+		if len(l) > 60 {
+			l = l[:60]
+		}
+		return l
+	}
+}
+
+func indexFrom(s, sub string, from int) int {
+	for i := from; i+len(sub) <= len(s); i++ {
+		if s[i:i+len(sub)] == sub {
+			return i
+		}
+	}
+	return -1
+}
